@@ -533,6 +533,37 @@ func (m *Machine) Branch(cond *smt.Term) bool {
 	return true
 }
 
+// ChooseAmong: a scheduling choice among n alternatives that are all possible (no condition attached);
+// every alternative is explored.
+func (m *Machine) ChooseAmong(n int) int {
+	if n <= 1 {
+		return 0
+	}
+	if m.inInit > 0 {
+		m.unsupported("scheduling choice during package initialisation")
+	}
+	m.Decisions++
+	if m.cursor < len(m.prefix) {
+		d := m.prefix[m.cursor]
+		m.cursor++
+		m.trace = append(m.trace, d)
+		m.unwindCountOnly()
+		if d < 0 || int(d) >= n {
+			m.unsupported("replayed scheduling choice out of range")
+		}
+		return int(d)
+	}
+	m.unwindCheck()
+	for alt := 1; alt < n; alt++ {
+		a := make([]int64, len(m.trace)+1)
+		copy(a, m.trace)
+		a[len(m.trace)] = int64(alt)
+		m.pushAlt(a)
+	}
+	m.trace = append(m.trace, 0)
+	return 0
+}
+
 func (m *Machine) unwindCountOnly() {
 	key := m.where()
 	m.forkCount[key]++
